@@ -397,9 +397,47 @@ def tie_edge_cases(ctx):
             ctx.violation("C11:tie:new-name-in-use", "add_tie(..., new_name=%r) where %r already names another parameter: the model now has the parameter names %r" % (taken, taken, d_._parameter_names), info)
 
 
+def model_class_histories(ctx):
+    """models of different classes built one after the other in one process: each exposes exactly the priors of ITS OWN description
+    (nothing of a model built earlier), and a name-keyed dictionary covering its own priors builds its scatterer"""
+    rng = ctx.rng
+    for i in range(ctx.n(6, 40)):
+        mk_sc = lambda: Sphere(n=Uniform(1.4, 1.7, guess=1.5), r=Uniform(0.3, 0.6, guess=0.45), center=[Uniform(0, 1, guess=0.5), 0.5, Uniform(5, 9, guess=7.0)])
+        opt = dict(medium_index=1.33, illum_wavelen=0.66, illum_polarization=(1, 0), noise_sd=0.1, theory=Mie())
+        seq = [("AlphaModel(alpha=prior)", lambda: AlphaModel(mk_sc(), alpha=Uniform(0.5, 1.0, guess=0.8), **opt), 5),
+               ("ExactModel", lambda: ExactModel(mk_sc(), **opt), 4),
+               ("AlphaModel(alpha=0.7)", lambda: AlphaModel(mk_sc(), alpha=0.7, **opt), 4),
+               ("ExactModel", lambda: ExactModel(mk_sc(), **opt), 4),
+               ("AlphaModel(alpha=prior, named)", lambda: AlphaModel(mk_sc(), alpha=Uniform(0.5, 1.0, guess=0.8, name="a"), **opt), 5),
+               ("ExactModel", lambda: ExactModel(mk_sc(), **opt), 4)]
+        order = list(rng.permutation(len(seq))) if i else list(range(len(seq)))
+        hist = []
+        for j in order:
+            label, mkm, nexp = seq[j]
+            hist.append(label)
+            ctx.tried("model-class-history", (label, len(hist), i))
+            info = dict(kind="model-class-history", history=list(hist))
+            try:
+                mdl = mkm()
+                if len(mdl._parameter_names) != nexp:
+                    ctx.violation("C11:model-class-history:parameters", "%s built after %r exposes the parameters %r (%d for %d distinct priors of its description)" % (
+                        label, hist[:-1], mdl._parameter_names, len(mdl._parameter_names), nexp), info)
+                    break
+                own = {nm: float(p.guess) + 0.01 for nm, p in zip(mdl._parameter_names, mdl._parameters) if not nm.startswith("a")}
+                if label.startswith("ExactModel"):
+                    r = impl_call(lambda: mdl.scatterer_from_parameters(own))
+                    if isinstance(r, tuple) and len(r) == 2 and r[0] == "err":
+                        ctx.violation("C11:model-class-history:name-keyed", "%s built after %r: a name-keyed dictionary covering the priors of its description raises %s" % (label, hist[:-1], r[1]), info)
+                        break
+            except Exception as ex:
+                ctx.violation("C11:model-class-history-raises:%s" % type(ex).__name__, "%s built after %r raised %r" % (label, hist[:-1], ex), info)
+                break
+
+
 def search(ctx):
     theory_parameters(ctx)
     tie_edge_cases(ctx)
+    model_class_histories(ctx)
     rng = ctx.rng
     n = ctx.n(60, 600)
     # deterministic probe: a Model over a RigidCluster must honour its rotation/translation parameters
